@@ -71,6 +71,30 @@ CHECKS = {
    note='Trusted: Coq kernel (QArith/lra, closed under the global context); templates in emit_recipes.py; atomicity of transact blocks (C06); start timestamps taken at admission (no scheduling delay between admission and start).',
    tech='Coq inductive invariants + potential-function argument over Q + generated definitions + schedule-driven differential testing',
    ref='7 (C20)'),
+ 'C03': dict(
+   cat='proof',
+   text='Row-level theorems for every reachable state, configuration, clock value and volume oracle: rowids strictly ascending for every history (insertion order = iteration order, replacing keeps the position), count = number of rows, and the removal clause: the lazy cull removes only passed rows or, under an evicting policy, rows once volume >= size_limit; set removes no other key except through that cull; get/contains/touch remove nothing; delete/pop remove exactly the one live item their key addresses. Lookup clauses are C04, value/key clauses C01/C02. Tie: SQL/guard translator with bridge lemmas + three-way differential run (implementation, plain-Python reference dictionary, Coq row model) with the table compared after every call, exhaustive short sequences and histories crossing the 100-row page size.',
+   note='Trusted: Coq kernel; relational SQL model; control skeleton of Cache.v pinned by translator templates and validated after every call. Partial: the whole-state dictionary laws (get-after-set, no shadowing, iteration = rows for every table size) are decided by the reference-dictionary monitor and the correspondence; their Coq proofs (SinvFacts) are cited only when present in the tree. incr on float values is outside the model (kept out of generated histories).',
+   tech='Coq proof (generic invariant closure over operation skeletons, bridge lemmas, rowid uniqueness) + generated model + three-way differential testing',
+   ref='7 (C03)'),
+ 'C09': dict(
+   cat='proof',
+   text='Theorems over model/Cache.v for all well-formed states (rowids distinct, proved invariant), configurations, clock values and volume-oracle values: _cull removes an unexpired row only with volume >= size_limit, a policy other than none and cull_limit <> 0; at most cull_limit rows, none when zero; as a prefix in policy-key order (tie-insensitive), expired rows first in expire_time order; lifted to set/add/incr/push; policy-key maintenance of set/add/incr/get; cull() = expire() (complete for 0 <= expire_time < now, any population) followed by pages of 10 in policy order until volume <= size_limit or empty, returning the number removed, always terminating; policy none and get never evict; each shard gets size_limit/shards. Tie: translator of _cull, EVICTION_POLICY, cull, get/incr updates, triggers, fanout __init__ + row-level comparison after every call + independent ledger monitor.',
+   note='Trusted: Coq kernel; hand-written SQLite model (stable ORDER BY, LIMIT prefix, DELETE by rowid) and the control skeleton of Cache.v, validated every run; the page part of volume() is an oracle over which every theorem quantifies. Order statement is tie-insensitive (<=). C09_bound stated for cull_limit >= 0. Fanout limit is the exact rational, binary64 rounding checked per shard by the monitor.',
+   tech='Coq proof (sorted-prefix lemmas over stable insertion sort; inductive invariants over step, select_delete and cull_loop) + generated model + differential row-level testing + history-ledger monitor',
+   ref='7 (C09)'),
+ 'C17': dict(
+   cat='proof',
+   text='Theorems over an executable model of Cache.check/FanoutCache.check whose guards, repairs, pass order and walk directions are regenerated from the source: for every damaged state (any rows/files/dirs/counters, unique rowids) plain check changes nothing and reports exactly the declaratively defined inconsistencies; check(fix=True) reports the same by (kind, name) plus only directories it emptied itself, leaves every row readable, preserves undamaged rows and owned files, fixes the counters, and a second check reports nothing.',
+   note='Trusted: Coq kernel; hand-written os.walk/removedirs/trigger semantics (compared with the implementation on every case: sorted warnings with numbers + resulting rows, counters, tree, for plain / fix / second run); integrity_check and VACUUM, Timeout, trees deeper than xx/yy and symlinks are outside the model; truncated pickle or UTF-8 value files stay undecodable after the repair (check compares sizes only). Debris of killed processes (C07) is exercised in C07, not here.',
+   tech='Coq proof (list induction, no bounds) + AST translator + differential testing + oracle monitor over all subsets of damage kinds',
+   ref='7 (C17)'),
+ 'C18': dict(
+   cat='proof',
+   text='Format-frozen theorem (generated on-disk format data: schema DDL, settings, file layout, queue-key constants, shard directory format, plus the Disk put/store/fetch/hash decision trees = hand-frozen copy of release 5.6.3), settings-merge theorems for all dictionaries (given > stored > defaults, idempotent reopen), FanoutCache size_limit refuted (finding C18-F1) + partial for every other setting, handle state round trip. Partial: cross-handle/thread/fork/process visibility and "every operation depends only on directory state" are exercised (reference-dictionary monitor over histories with close/reopen/pickle/copy/thread/fork/new-process events for Cache, FanoutCache, Deque, Index, DjangoCache; golden directory written by the pinned version read back) not proved.',
+   note='Trusted: Coq kernel; translator; the frozen decision trees include the two recorded value-path fixes (NaN -> pickle, newline=""), which do not change how existing files are read on POSIX; process/fork/thread behaviour of SQLite and CPython.',
+   tech='Coq (reflexivity/vm_compute + list lemmas) + AST translator + golden fixture + differential testing of the settings merge',
+   ref='7 (C18)'),
 }
 
 def main():
